@@ -688,7 +688,7 @@ def s17_tag_name_of_every_match(chk: Check, proj: Project, m) -> None:
         chk.undecided("S17", "dependencies:_insert_js_css_to_default_locations:tag-name-total", m.loc(loop), "no local is computed from the match inside the loop")
         return
     tn = ext.targets[0].id
-    names = {c.comparators[0].value for c in ast.walk(loop) if isinstance(c, ast.Compare) and isinstance(c.left, ast.Name) and c.left.id == tn and len(c.ops) == 1 and isinstance(c.ops[0], ast.Eq) and isinstance(c.comparators[0], ast.Constant)}
+    names = {c.comparators[0].value for c in ast.walk(loop) if isinstance(c, ast.Compare) and isinstance(c.left, ast.Name) and c.left.id == tn and len(c.ops) == 1 and isinstance(c.ops[0], (ast.Eq, ast.NotEq)) and isinstance(c.comparators[0], ast.Constant)}
     names |= {e.value for c in ast.walk(loop) if isinstance(c, ast.Compare) and isinstance(c.left, ast.Name) and c.left.id == tn and isinstance(c.ops[0], ast.In) for e in getattr(c.comparators[0], "elts", []) if isinstance(e, ast.Constant)}
 
     def ev(e: ast.AST, s0: str):
